@@ -29,6 +29,10 @@ func main() {
 		fmt.Println(strings.Join(ids, "\n"))
 	case "selftest":
 		os.Exit(selftestCmd(os.Args[2:]))
+	case "scan":
+		os.Exit(scanCmd(os.Args[2:]))
+	case "mutgen":
+		os.Exit(mutgenCmd(os.Args[2:]))
 	default:
 		fmt.Fprintln(os.Stderr, "unknown subcommand", os.Args[1])
 		os.Exit(2)
